@@ -386,18 +386,27 @@ Definition model_ssub (fx : fixes) (S : schema) (F : features) (events : nat) (d
   | Forged => None
   end.
 
-(** the documents the transcription speaks about: response keys pairwise distinct (the
-    field-merging rule and the merging of selection sets are not transcribed), fragment names
+(** the documents the transcription speaks about: equal response keys select the same field (or
+    both __typename) — the generator places such duplicates in the same scope, without arguments, so
+    that the field-merging rule (not transcribed) never fires; if it did, the implementation's
+    verdict would differ from the model's and the case would be reported —, fragment names
     distinct, every spread names a defined fragment, every fragment is spread somewhere *)
-Fixpoint sel_keys (s : sel) : list name :=
+Fixpoint sel_keys (s : sel) : list (name * option name) :=
   match s with
-  | SField _ k _ sub => (k :: sels_keys sub)%list
-  | STypename _ k => [k]
+  | SField _ k f sub => ((k, Some f) :: sels_keys sub)%list
+  | STypename _ k => [(k, None)]
   | SInline _ _ sub => sels_keys sub
   | SSpread _ _ => []
   end
-with sels_keys (l : sels) : list name :=
+with sels_keys (l : sels) : list (name * option name) :=
   match l with SNil => [] | SCons s r => (sel_keys s ++ sels_keys r)%list end.
+Definition oname_eqb (a b : option name) : bool :=
+  match a, b with Some x, Some y => bytes_eqb x y | None, None => true | _, _ => false end.
+Fixpoint keys_consistent (l : list (name * option name)) : bool :=
+  match l with
+  | [] => true
+  | (k, f) :: r => forallb (fun kf => negb (bytes_eqb k (fst kf)) || oname_eqb f (snd kf)) r && keys_consistent r
+  end.
 Fixpoint sel_spreads (s : sel) : list name :=
   match s with
   | SField _ _ _ sub => sels_spreads sub
@@ -410,7 +419,7 @@ with sels_spreads (l : sels) : list name :=
 Definition doc_wf (d : sdoc) : bool :=
   let spreads := (sels_spreads (d_sels d) ++ flat_map (fun f => sels_spreads (fr_sels f)) (d_frags d))%list in
   let fnames := map fr_name (d_frags d) in
-  nodup (sels_keys (d_sels d) ++ flat_map (fun f => sels_keys (fr_sels f)) (d_frags d))%list &&
+  keys_consistent (sels_keys (d_sels d) ++ flat_map (fun f => sels_keys (fr_sels f)) (d_frags d))%list &&
   nodup fnames && forallb (fun x => mem x fnames) spreads && forallb (fun x => mem x spreads) fnames.
 
 (** ** observations *)
@@ -691,6 +700,8 @@ Definition req_classes (S : schema) (F G : features) (r : list sexp) : list stri
                  | Some d =>
                      (if valid then "sdoc-valid" else "sdoc-invalid") ::
                      ((if is_nil (d_frags d) then [] else ["sdoc-with-named-fragments"]) ++
+                      (if nodup (map fst (sels_keys (d_sels d) ++ flat_map (fun f => sels_keys (fr_sels f)) (d_frags d))%list)
+                       then [] else ["sdoc-with-equal-response-keys"]) ++
                      sdoc_exec_classes fixed S F d ++
                      match model_sdoc fixed S F d, model_sdoc fixed S G d with
                      | Some x, Some y =>
